@@ -540,6 +540,16 @@ def _r6(repo: Repo, ctx) -> None:
                 a = inline_locals(f.node, b.left.args[0].args[0])
                 pay = inline_locals(f.node, b.right)
                 ok = a == pay
+                # an element count in front of the joined elements
+                r_ = b.right
+                if isinstance(r_, ast.Call) and isinstance(
+                        r_.func, ast.Attribute) and r_.func.attr == 'join' \
+                        and len(r_.args) == 1 and isinstance(
+                        r_.args[0], (ast.GeneratorExp, ast.ListComp)) and \
+                        len(r_.args[0].generators) == 1 and not \
+                        r_.args[0].generators[0].ifs and inline_locals(
+                            f.node, r_.args[0].generators[0].iter) == a:
+                    ok = True
                 ctx.saw(f)
                 ctx.ob('C14.R6', f'{f.name}:len-prefix=payload', ok,
                        f'{f.name} prefixes `{pay[:40]}` with len({a[:30]}): '
@@ -681,8 +691,17 @@ def _r8(repo: Repo, ctx) -> None:
         if f.parent is None and any(
                 isinstance(c, ast.Call) and call_name(c) in (
                     'uuidgen.uuid5', 'uuid5', 'uuid.uuid5')
-                for c in ast.walk(f.node)) and f.name.startswith('_get_'):
+                for c in ast.walk(f.node)):
             idfns[f.name] = f
+    # a function that returns what an id function computes from its own
+    # parameters is one too (a caching / normalising front)
+    for _ in range(3):
+        for f in repo._funcs_of(m):
+            if f.parent is None and f.name not in idfns and any(
+                    isinstance(r, ast.Return) and isinstance(
+                        r.value, ast.Call) and call_name(r.value) in idfns
+                    for r in ast.walk(f.node)):
+                idfns[f.name] = f
     if len(idfns) < 3:
         raise AnalysisError(f'C14.R8: id functions not found ({sorted(idfns)})')
     for name, f in sorted(idfns.items()):
